@@ -434,7 +434,14 @@ func (v *ADTSImpl) Decode(data []byte) (raw, left []byte, err error) {
 	v.asc.Channels = Channels(channelConfiguration)
 	v.asc.SampleRate = SampleRateIndex(samplingFrequencyIndex)
 
-	nbRaw := int(frameLength - 7)
+	// The frame length includes the headers and the error check.
+	nbRaw := int(frameLength) - 7
+	if protectionAbsent == 0 {
+		nbRaw -= 2
+	}
+	if nbRaw < 0 {
+		return nil, nil, errors.Errorf("invalid frame length %v", frameLength)
+	}
 	if len(p) < nbRaw {
 		return nil, nil, errors.Errorf("requires %v but only %v bytes", nbRaw, len(p))
 	}
